@@ -193,6 +193,13 @@ func oneBurst(c C09Case, rep int) (sig, msg string, nt bool) {
 		default:
 			s := sessions[i%len(sessions)]
 			k := "update"
+			if c.Kind == "same-session-releases" {
+				// several releases (retransmissions) and updates of one session in flight together
+				k = "release"
+				if i%3 == 2 {
+					k = "update"
+				}
+			}
 			if c.Kind == "mixed" || c.Kind == "same-sub" {
 				switch i % 5 {
 				case 3:
@@ -206,6 +213,8 @@ func oneBurst(c C09Case, rep int) (sig, msg string, nt bool) {
 			switch k {
 			case "update":
 				reqs = append(reqs, &burstReq{method: "POST", path: prefix + "/chargingdata/" + s.ref + "/update", body: mkUpdateBody(s.supi, s.id, 1, c.Req, c.Used, lsn, ""), kind: "update", supi: s.supi, sessRef: s.ref, lsn: lsn, usedOnline: int64(c.Used)})
+			case "release":
+				reqs = append(reqs, &burstReq{method: "POST", path: prefix + "/chargingdata/" + s.ref + "/release", body: mkUpdateBody(s.supi, s.id, 1, 0, c.Used, lsn, "FINAL"), kind: "release", supi: s.supi, sessRef: s.ref, lsn: lsn, usedOnline: int64(c.Used)})
 			case "recharge":
 				reqs = append(reqs, &burstReq{method: "PUT", path: fmt.Sprintf("%s/recharging/%s_1", prefix, s.supi), kind: "recharge", supi: s.supi})
 			case "create":
@@ -253,13 +262,31 @@ func oneBurst(c C09Case, rep int) (sig, msg string, nt bool) {
 		}
 	}
 	// quiescent-state oracles
+	released := map[string]int{}
 	for _, r := range reqs {
 		switch r.kind {
 		case "update":
+			if c.Kind == "same-session-releases" {
+				// an update ordered after the release is rejected; one ordered before it is accepted
+				if r.code != 200 && r.code != 404 {
+					return "update-status-beside-release", fmt.Sprintf("update concurrent with releases of its session answered %d, want 200 or 404", r.code), nt
+				}
+				if r.code == 200 {
+					usage[r.supi] += r.usedOnline
+				}
+				continue
+			}
 			if r.code != 200 {
 				return "valid-request-rejected/update", fmt.Sprintf("concurrent update answered %d", r.code), nt
 			}
 			usage[r.supi] += r.usedOnline
+		case "release":
+			if r.code == 204 {
+				released[r.supi+"|"+r.sessRef]++
+				usage[r.supi] += r.usedOnline
+			} else if r.code != 404 {
+				return "release-status-concurrent", fmt.Sprintf("one of several concurrent releases of a session answered %d, want 204 once and 404 otherwise", r.code), nt
+			}
 		case "create":
 			if r.code != 201 {
 				return "valid-request-rejected/create", fmt.Sprintf("concurrent create answered %d", r.code), nt
@@ -285,13 +312,27 @@ func oneBurst(c C09Case, rep int) (sig, msg string, nt bool) {
 			return "credit-not-conserved/" + c.Kind, fmt.Sprintf("after the burst (%s, %d requests): balance %d + reservation %d = %d, credited %d - cost %d x usage %d = %d", c.Kind, len(reqs), q, snap.Reserved[1], q+snap.Reserved[1], credited[supi], c.Cost, usage[supi], want), nt
 		}
 	}
-	// every reported container exactly once in its session's record(s)
+	if c.Kind == "same-session-releases" {
+		for k, n := range released {
+			if n != 1 {
+				return "session-released-more-than-once", fmt.Sprintf("%d of the concurrent releases of session %s were acknowledged with 204 (a serial order acknowledges exactly one)", n, k), nt
+			}
+		}
+		if len(released) == 0 {
+			return "session-released-more-than-once", "none of the concurrent releases was acknowledged", nt
+		}
+	}
+	// every container of an accepted request exactly once in its session's record(s), none of a rejected one
 	for _, s := range sessions {
 		got := lsnsOfSession(s.supi, s.id)
 		for _, r := range reqs {
-			if r.kind == "update" && r.sessRef == s.ref && r.supi == s.supi {
-				if got[int64(r.lsn)] != 1 {
-					return "container-count/" + c.Kind, fmt.Sprintf("container lsn %d reported in the burst for session %s is recorded %d times", r.lsn, s.ref, got[int64(r.lsn)]), nt
+			if (r.kind == "update" || r.kind == "release") && r.sessRef == s.ref && r.supi == s.supi {
+				want := 0
+				if r.code >= 200 && r.code < 300 {
+					want = 1
+				}
+				if got[int64(r.lsn)] != want {
+					return "container-count/" + c.Kind, fmt.Sprintf("container lsn %d of a %s answered %d for session %s is recorded %d times, want %d", r.lsn, r.kind, r.code, s.ref, got[int64(r.lsn)], want), nt
 				}
 			}
 		}
@@ -305,6 +346,9 @@ func oneBurst(c C09Case, rep int) (sig, msg string, nt bool) {
 		refs[s.supi+"|"+s.ref] = true
 	}
 	for _, s := range sessions {
+		if released[s.supi+"|"+s.ref] > 0 {
+			continue
+		}
 		lsn++
 		code, _, _ := doHTTP("POST", prefix+"/chargingdata/"+s.ref+"/update", mkUpdateBody(s.supi, s.id, 1, 0, 0, lsn, ""), nil)
 		if code != 200 {
@@ -349,7 +393,7 @@ func judgeC09(c C09Case) *h.Verdict {
 }
 
 func genC09(t *rapid.T) C09Case {
-	return C09Case{Kind: rapid.SampledFrom([]string{"same-sub", "same-new-supi", "different-subs", "mixed"}).Draw(t, "kind"),
+	return C09Case{Kind: rapid.SampledFrom([]string{"same-sub", "same-new-supi", "different-subs", "mixed", "same-session-releases"}).Draw(t, "kind"),
 		N: rapid.SampledFrom([]int{2, 3, 4, 8, 16}).Draw(t, "n"), Procs: rapid.SampledFrom([]int{1, 2, 4, 16}).Draw(t, "procs"),
 		Reps: h.Scale(4, 25), Bal: rapid.SampledFrom([]int64{0, 500, 100000, 1 << 40}).Draw(t, "bal"), Cost: rapid.SampledFrom([]int{1, 3}).Draw(t, "cost"),
 		Req: int32(rapid.SampledFrom([]int{1, 100, 1000}).Draw(t, "req")), Used: int32(rapid.SampledFrom([]int{0, 1, 50, 100}).Draw(t, "used"))}
